@@ -9,6 +9,7 @@ package provisioning
 //@   prop C04
 //@   modifies *
 //@   site (*Provisioner).Schedule requires [synced] @(*Cluster).Synced
+//@   site (*Provisioner).Schedule requires [everyClaimLaunched] state.allLaunched(p.cluster)
 //@   site (*Provisioner).CreateNodeClaims requires [synced] @(*Cluster).Synced
 
 // Schedule is only cut off here (it claims nothing: everything may change, no postcondition). Its own contract
